@@ -77,8 +77,15 @@ class Recorder:
     def violation(self, signature, case, expected=None, observed=None, detail=None):
         self.viol_count[signature] += 1
         if self.viol_count[signature] <= MAX_VIOL_PER_SIG:
-            self.violations.append(dict(signature=signature, case=case, expected=expected,
-                                        observed=observed, detail=detail))
+            # what is kept is plain data: live objects (view instances, exceptions, ...) are rendered, so that a violation
+            # record can always be shipped from a worker process and written to a replay file
+            def plain(x):
+                try:
+                    return json.loads(jdump(x))
+                except Exception:   # noqa
+                    return repr(x)[:2000]
+            self.violations.append(dict(signature=signature, case=case, expected=plain(expected),
+                                        observed=plain(observed), detail=plain(detail)))
 
     def sample(self, s, cap=6):
         if len(self.samples) < cap:
